@@ -1,4 +1,5 @@
 import Proofs.Diff
+import Proofs.Spec
 import Model.Diff.Text
 /-!
 # C03 — positional-mode result equals the recursive definition of structural difference
@@ -6,10 +7,12 @@ import Model.Diff.Text
 What is machine-checked here about the model in positional mode (`zip_ordered_iterables=True`,
 `threshold_to_diff_deeper=0`): the dictionary shortcut never fires, no iterable goes through the
 difflib pass (the result does not depend on the alignment oracle at all, no opcodes are recorded),
-i.e. the model *is* the pairwise recursion.  The comparison of the complete verbose text view with
-the independent ~70-line specification is carried out on the implementation by the harness
-(`harness/props/C03.py: struct_diff`); the Lean statement `C03_model_eq_spec` against a Lean copy of
-that specification is not proved yet (see DESIGN §5/C03).
+i.e. the model *is* the pairwise recursion; and **`C03_model_eq_spec`**: the entries the model produces
+are exactly the entries of `specV` (`Proofs/Spec.lean`), a Lean copy of the recursive definition of
+structural difference that the harness uses as its independent reference (`harness/props/C03.py:
+struct_diff`) — as a multiset, since the definition collects entries in a dictionary keyed by path.
+The comparison of the complete verbose text view of the *implementation* with that reference is
+carried out by the harness on every run.
 -/
 namespace Diff
 open Py
@@ -97,5 +100,39 @@ theorem C03_pairs_indep (cfg : DCfg) (hz : cfg.zip = true) (al al' : Align) (has
     · simp only [List.nil_append]; rw [← ih.1]; exact ih.2
     · rw [← hv.1, ← ih.1, hv.2, ih.2]; rfl
 end
+
+/-- **The positional-mode result is the recursive definition.**  For every pair of values of any size and
+nesting (dictionaries with pairwise different hashable keys from a universe on which `==` is
+identity), every alignment oracle and hasher: the entries of the model's diff tree — category, path
+steps, both values, the text-diff flag — are exactly the entries of the recursive definition `specV`:
+nothing missing, nothing extra, nothing at another path. -/
+theorem C03_model_eq_spec (cfg : DCfg) (hp : Pos cfg) (he0 : cfg.exclude = []) (al : Align) (hashOf : PyVal → String)
+    (K : List PyVal) (hK : StrictKeys K) (t1 t2 : PyVal) (d1 : domD K t1) (d2 : domD K t2) :
+    (diffV cfg al hashOf [] t1 t2).tree.Perm (specV cfg.ignorePrivate hashOf [] t1 t2) :=
+  spec_V hp he0 al hashOf K hK t1 t2 [] d1 d2
+
+/-- the same for the complete result when add/remove pairs are not merged (`report_repetition=True`;
+in positional mode an added and a removed item never share a path) -/
+theorem C03_deepDiff_eq_spec (cfg : DCfg) (hp : Pos cfg) (he0 : cfg.exclude = []) (hr : cfg.reportRepetition = true)
+    (al : Align) (hashOf : PyVal → String) (K : List PyVal) (hK : StrictKeys K) (t1 t2 : PyVal) (d1 : domD K t1) (d2 : domD K t2) :
+    (deepDiff cfg al hashOf t1 t2).tree.Perm (specV cfg.ignorePrivate hashOf [] t1 t2) := by
+  have hk : keepReported cfg (diffV cfg al hashOf [] t1 t2).tree = (diffV cfg al hashOf [] t1 t2).tree := by
+    unfold keepReported
+    rw [List.filter_eq_self]
+    intro e _
+    simp [skipSteps_none hp he0]
+  unfold deepDiff
+  simp only [hr, if_true, skipSteps_none hp he0, Bool.false_eq_true, if_false, hk]
+  exact C03_model_eq_spec cfg hp he0 al hashOf K hK t1 t2 d1 d2
+
+/-- every entry is where the definition puts it: membership in the two trees coincides -/
+theorem C03_same_entries (cfg : DCfg) (hp : Pos cfg) (he0 : cfg.exclude = []) (al : Align) (hashOf : PyVal → String)
+    (K : List PyVal) (hK : StrictKeys K) (t1 t2 : PyVal) (d1 : domD K t1) (d2 : domD K t2) (e : Cat × Level) :
+    e ∈ (diffV cfg al hashOf [] t1 t2).tree ↔ e ∈ specV cfg.ignorePrivate hashOf [] t1 t2 :=
+  (C03_model_eq_spec cfg hp he0 al hashOf K hK t1 t2 d1 d2).mem_iff
+
+/-! Non-vacuity: a nested value of the domain. -/
+example : domD [.str "a", .str "b"] (.dict [(.str "a", .list [.int 1, .dict [(.str "b", .none)]])]) := by
+  simp [domD, domDP, domDL, distinctKeys, keyEq, hashable]
 
 end Diff
